@@ -490,7 +490,15 @@ func (env *Env) evalQuant(n EQuant) Val {
 		for _, t := range n.Trig {
 			ps = append(ps, e.asTerm(env.st, sub.eval(t)))
 		}
-		bt = fmt.Sprintf("(! %s :pattern (%s))", bt, strings.Join(ps, " "))
+		pats := fmt.Sprintf(":pattern (%s)", strings.Join(ps, " "))
+		for _, grp := range n.Alt {
+			var as []string
+			for _, t := range grp {
+				as = append(as, e.asTerm(env.st, sub.eval(t)))
+			}
+			pats += fmt.Sprintf(" :pattern (%s)", strings.Join(as, " "))
+		}
+		bt = fmt.Sprintf("(! %s %s)", bt, pats)
 	}
 	return term(fmt.Sprintf("(%s (%s) %s)", q, strings.Join(decls, " "), bt), tBool)
 }
@@ -748,6 +756,15 @@ func (env *Env) evalCall(n ECall) Val {
 			return term("true", tBool)
 		}
 		return term(fmt.Sprintf("(forall ((r!k Int)) (! (=> (and (<= 0 r!k) (<= r!k %s)) (= (select %s r!k) (select %s r!k))) :pattern ((select %s r!k))))", env.old.alloc, cur, old, cur), tBool)
+	case "absheap":
+		// absheap("pkg.T", "field"): the current abstract field `field` of all objects of type T, as one ghost
+		// map from object to value; lets a ghost variable snapshot library state at a program point
+		t := e.P.resolveType(typeArgText(n.Args[0]), env.pkg, env.fnForTypes())
+		h, sort, ft, ok := e.absFieldOf(t, typeArgText(n.Args[1]))
+		if !ok {
+			limitf("contract does not bind: absheap(%s, %s)", typeArgText(n.Args[0]), typeArgText(n.Args[1]))
+		}
+		return term(e.heapGet(env.st, h, sort), &GhostT{Kind: "gmap", Key: types.NewPointer(t), Elem: ft})
 	case "keptArraysExcept":
 		// keptArraysExcept("T", s): every backing array of element type T that existed in the old state,
 		// other than the one slice s had in the old state, has its old contents
